@@ -296,6 +296,18 @@ func utf8Chars() []string {
 		add(0xfe00, 0xffff)
 		add(0x1f500, 0x1f5ff)
 		add(0x10ff00, 0x10ffff)
+		// not valid UTF-8, but what lenient decoders accept: over-long two-byte
+		// forms of every ASCII byte (C0 80 - C1 BF), three- and four-byte
+		// over-long forms of the markup and SQL metacharacters, CESU surrogates
+		for lead := 0xc0; lead <= 0xc1; lead++ {
+			for tr := 0x80; tr <= 0xbf; tr++ {
+				utf8List = append(utf8List, string([]byte{byte(lead), byte(tr)}))
+			}
+		}
+		for _, c := range []byte("<=>'\"/ `&#;:-(\\\x00\n") {
+			utf8List = append(utf8List, string([]byte{0xe0, 0x80 | c>>6, 0x80 | c&0x3f}), string([]byte{0xf0, 0x80, 0x80 | c>>6, 0x80 | c&0x3f}))
+		}
+		utf8List = append(utf8List, "\xed\xa0\x80", "\xed\xbf\xbf", "\xf4\x90\x80\x80", "\xf8\x88\x80\x80\x80")
 	})
 	return utf8List
 }
